@@ -9,11 +9,18 @@
 // except according to those terms.
 
 use cadence::StatsdClient;
+#[cfg(not(cadence_verif))]
 use std::cell::UnsafeCell;
 use std::error::Error;
 use std::fmt::{self, Display, Formatter};
+#[cfg(not(cadence_verif))]
 use std::sync::atomic::{AtomicUsize, Ordering};
 use std::sync::Arc;
+
+#[cfg(cadence_verif)]
+use crate::verif_shim::{AtomicUsize, UnsafeCell};
+#[cfg(cadence_verif)]
+use std::sync::atomic::Ordering;
 
 const UNSET: usize = 0;
 const LOADING: usize = 1;
